@@ -128,7 +128,7 @@ func (e *Engine) assertObligation(st *State, c *Term, msg string) {
 		e.S.EndModel()
 		e.Discharged++
 		if len(e.Samples) < 6 {
-			e.Samples = append(e.Samples, fmt.Sprintf("%s: unsat(pc[%d conjuncts] AND NOT %s)", msg, len(st.pc), truncate(Not(c).String(), 160)))
+			e.Samples = append(e.Samples, fmt.Sprintf("%s: unsat(pc[%d conjuncts] AND NOT %s)", msg, len(st.pc), Not(c).StringLimit(160)))
 		}
 	}
 }
